@@ -225,4 +225,9 @@ CHECKS = {
         technique='Hypothesis interleavings of the real scheduler loop, four canceller bodies, simulated workers (duplicate/late/stale reports), preemption and user cancels, followed by a fair closing phase to a fixpoint; safety invariants per op, bounded liveness at the fixpoint',
         text='~640 histories per quick run: running jobs always have exactly one current attempt, stale reports never change job state; at the fair fixpoint every committed job is terminal, batches complete, always-run jobs ran.',
         note='Liveness only as fixpoint detection under the stated fairness model at transaction granularity; round bound 60 => inconclusive. Known findings are excluded by construction.'),
+    'C09': dict(
+        level='fault_enumeration',
+        technique='Hypothesis pipelines for the real aioclient (jobs, parents, job groups, 1-3 submits, small bunch limits) through the real retrying Session into the real front-end app; per-request fault plan (lost response -> client retry, duplicate delivery); invariants + metamorphic comparison with the fault-free run',
+        text='400 pipelines x fault plans per quick run (both fast path and multi-bunch path): no second batch/update, contiguous ordered id ranges, no double counting (n_jobs, scheduler counters), client ids == server ids, and the faulty run equals the fault-free run when all calls returned.',
+        note='Duplicates are delivered after the first request completed (no concurrent duplicate inside one transaction window); second-client interleaving is not generated. Observation (not judged): a re-sent job-group bunch is answered 400 "not submitted in order".'),
 }
